@@ -8,6 +8,8 @@ Property theorems for C14 (statements are printed by `#check`, axioms by `#check
 #check @Registry.ab_state
 #check @Registry.alphaBeta_registry_correct
 #check @Registry.alphaBeta_registry_const
+#check @Smooth.ab_scale
+#check @Smooth.ab_offset
 #print axioms`;
 `bin/check C14` re-elaborates this file on every run and audits the axiom lists).
 -/
@@ -22,3 +24,5 @@ open SignaloModel
 #print axioms Registry.ab_state
 #print axioms Registry.alphaBeta_registry_correct
 #print axioms Registry.alphaBeta_registry_const
+#print axioms Smooth.ab_scale
+#print axioms Smooth.ab_offset
